@@ -383,7 +383,10 @@ class Session:
         m = re.match(r'RESET\s+([A-Za-z_.]+)', text, re.I)
         if m:
             canon = GUC_CANON.get(m.group(1).lower(), m.group(1).lower())
-            self.set_guc(canon, self.guc_defaults.get(canon, ''), out)
+            if canon in self.guc_defaults:
+                self.set_guc(canon, self.guc_defaults[canon], out)
+            else:
+                self.gucs.pop(canon, None)      # a setting this session never changed, or one back at its built-in default
             out.append(W.CommandComplete('RESET'))
             return finish('reset')
         if re.match(r'DEALLOCATE\s+(PREPARE\s+)?ALL\b', up):
@@ -550,7 +553,10 @@ class Backend(threading.Thread):
             self.hang_release = threading.Event()
             self.mode = 'hang_startup'
             return
-        if kind == 'refuse':
+        if kind == 'startup_error':
+            self.mode = 'startup_error'
+            self.kill_connections()
+        elif kind == 'refuse':
             self.mode = 'refuse'
             self.kill_connections()
         elif kind == 'hang':
@@ -635,6 +641,14 @@ class Backend(threading.Thread):
             s.guc_defaults['application_name'] = s.gucs['application_name']
             s.gucs['session_authorization'] = s.user or ''
             s.guc_defaults['session_authorization'] = s.user or ''
+            if mode == 'startup_error':
+                # the server answers the startup packet with a FATAL error (as PostgreSQL does while starting up or
+                # shutting down) and closes
+                s.log('startup_refused', user=s.user or '')
+                c.sendall(W.ErrorResponse('57P03', 'the database system is starting up', 'FATAL'))
+                c.close()
+                s.closed = True
+                return
             if mode == 'hang_startup':
                 s.log('startup_hang', user=s.user or '')
                 self.hang_release.wait()
